@@ -135,6 +135,7 @@ Obs(e) ==
     [] e.ev = "Cb" /\ e.d \notin {"R", "W"} -> Fail("C02/harness/cb")
     [] e.ev = "Got"    -> ObsGot(e)
     [] e.ev = "Rst"    -> ObsRst(e)
+    [] e.ev = "Panic"  -> Fail("C02/panic")      \* the library panicked in a call or in a handler: the transfer is lost
     [] e.ev = "End"    -> ObsEnd(e)
     [] e.ev \in {"ShutWr", "Poll", "Sys", "Ret", "Cancel", "Note"} -> UNCHANGED monvars
     [] OTHER           -> Fail("C02/harness/unknown-event")
